@@ -16,15 +16,18 @@ res_suite=$(go test -vet=off -count=1 ./... 2>&1 | grep -c "^ok")
 res_mut_demo=$( cp /tmp/seed/.hold_$$/change${i}_test.go $pkgdir/zz_seed_test.go; go test -vet=off -count=1 -run "TestSeed$i\$" ./$pkgdir 2>&1 | tail -1; rm -f $pkgdir/zz_seed_test.go)
 git checkout -q -- .; mv /tmp/seed/.hold_$$ SEED
 echo "clean demo: $res_clean_demo | suite ok pkgs with change: $res_suite/4 | demo with change: $res_mut_demo"
-# detection on /repo
-cd /repo && git apply $out/patch.diff || { echo "cannot apply to /repo"; exit 1; }
+# detection: the patch is applied to a scratch copy of /repo's working tree (same effect as git -C /repo apply + undo,
+# but safe to run while /repo is being edited); evidence of these runs goes to a scratch directory.
+scratch=$(mktemp -d /tmp/seedrun.XXXXXX)
+cp -r /repo $scratch/repo
+(cd $scratch/repo && git apply $out/patch.diff) || { echo "cannot apply to scratch copy"; rm -rf $scratch; exit 1; }
 det=""
 for p in "$@"; do
-  r=$(cd /verif && ./check $p quick 2>&1 | grep -E "^VIOLATION|^property|ENGINE" | cut -c1-300)
+  r=$(cd /verif && REPO=$scratch/repo EVID=$scratch/evid REPL=$out/replays ./check $p quick 2>&1 | grep -E "^VIOLATION|^property|ENGINE|KNOWN" | cut -c1-300)
   echo "--- $p"; echo "$r" | head -8
   det="$det\n[$p]\n$r"
 done
-cd /repo && git checkout -q -- . && git status --short | head -3
+rm -rf $scratch
 printf "%b\n" "$det" > $out/detection.txt
 python3 - "$out" "$name" "$res_clean_demo" "$res_suite" "$res_mut_demo" "$@" <<'PY'
 import json,sys
